@@ -115,7 +115,7 @@ def random_edit(st, rng, versions=None, files=None):
     monotonic: `restore` puts an earlier version of a file back together with its earlier mtime (cp -p, rsync -t,
     backup restore, package downgrade); `usercopy-*` create / change / delete user-directory copies that shadow
     the shared files (deleting one makes the older shared file apply again through the fallback resolver)."""
-    k = rng.choice(["row", "row", "row", "algebra", "algebra", "custom", "custom", "defcustom", "import", "pack",
+    k = rng.choice(["row", "row", "row", "algebra", "algebra", "custom", "custom", "defcustom", "import", "import-nested", "pack",
                     "list", "vocab", "usevocab", "touch", "noop", "noop",
                     "restore", "restore", "restore", "usercopy", "usercopy", "usercopy", "usercopy-del", "usercopy-del",
                     "include", "include", "inc-edit", "inc-edit",
@@ -262,6 +262,16 @@ def random_edit(st, rng, versions=None, files=None):
         else:
             imp.append(cand)
         return "import-toggle %s %s" % (d, cand)
+    if k == "import-nested":
+        # round 5: an imported table that names import_tables of its own (ignored by the collector as the code stands: only the
+        # primary dictionary's list is followed - and only that list enters the checksum)
+        d, cand = rng.choice([("tx", "tp"), ("tp", "tx")])
+        imp = st["dicts"][d].setdefault("imports", [])
+        if cand in imp:
+            imp.remove(cand)
+        else:
+            imp.append(cand)
+        return "import-nested-toggle %s %s" % (d, cand)
     if k == "pack":
         # a pack belongs to ONE primary dictionary (its checksum is seeded with the primary's): only the
         # schemas of dictionary `t` get packs
@@ -422,6 +432,9 @@ class Model:
 
 def run_history(ctx, T, rmodel, hid, steps, rng, scratch, stats, resident=False):
     st = initial_state()
+    if hid % 5 == 3:
+        # round 5: every fifth history starts with a two-level import chain (t imports tx, tx imports tp) and edits tp's rows early
+        st["dicts"]["tx"]["imports"] = ["tp"]
     ws = os.path.join(scratch, "h%d" % hid)
     wsc = os.path.join(scratch, "h%d-clean" % hid)
     shutil.rmtree(ws, ignore_errors=True)
@@ -434,7 +447,12 @@ def run_history(ctx, T, rmodel, hid, steps, rng, scratch, stats, resident=False)
     fails = []
     versions = {}
     for step in range(steps):
-        desc = "initial" if step == 0 else random_edit(st, rng, versions, texts_prev)
+        if hid % 5 == 3 and step in (1, 3):
+            rows = st["dicts"]["tp"]["rows"]
+            rows.append((chr(0x4e90 + step), rng.choice(["ding", "wu", "ba"]), rng.choice([None, 7, 30])))
+            desc = "row-add tp"
+        else:
+            desc = "initial" if step == 0 else random_edit(st, rng, versions, texts_prev)
         hist.append(desc)
         ek = re.split(r"[ =]", desc)[0]
         stats["edits"][ek] = stats["edits"].get(ek, 0) + 1
